@@ -12,6 +12,8 @@ CONSTANTS
   Penalty = 2
   CooldownSkipsChecks = TRUE
   InvalidKeyNoPenalty = FALSE
+  Versions = {"cur"}
+  OldVersionSkipsPow = FALSE
 INVARIANTS C20_AcceptNeedsValidPow
 VIEW View
 CONSTRAINT Bound
